@@ -8,6 +8,7 @@ package sftp
 
 import (
 	"context"
+	"fmt"
 	"io"
 	"os"
 	"path"
@@ -152,6 +153,7 @@ func (n *vnode) info(name string) os.FileInfo {
 
 // vfs implements all handler interfaces; which optional ones are visible is decided by the wrapper types below.
 type vfs struct {
+	badBytes   []int   // handler ReadAt / WriteAt calls whose range contains one of these positions fail with "E@<lowest>"
 	hlog       []hcall // every handler entry-point invocation (kept in memory for the adapter checks)
 	delay      func()  // optional: called at the start of every ReadAt / WriteAt handler call (schedule perturbation)
 	quiet      bool
@@ -299,6 +301,8 @@ func (o *vobj) ReadAt(p []byte, off int64) (int, error) {
 	}
 	if e := o.v.fail("R:" + itoa(int(off))); e != nil {
 		err = e
+	} else if b := o.v.firstBad(off, len(p), true, o.node); b >= 0 {
+		err = fmt.Errorf("E@%d", b)
 	} else {
 		o.v.mu.Lock()
 		d := o.node.data
@@ -324,6 +328,8 @@ func (o *vobj) WriteAt(p []byte, off int64) (int, error) {
 	var err error
 	if e := o.v.fail("W:" + itoa(int(off))); e != nil {
 		err = e
+	} else if b := o.v.firstBad(off, len(p), false, o.node); b >= 0 {
+		err = fmt.Errorf("E@%d", b)
 	} else {
 		o.v.mu.Lock()
 		need := int(off) + len(p)
@@ -409,6 +415,26 @@ func syscallItoa(i int) string {
 		b[p] = '-'
 	}
 	return string(b[p:])
+}
+
+// firstBad: lowest bad byte in [off, off+n) (for reads clipped to the file), or -1
+func (v *vfs) firstBad(off int64, n int, read bool, node *vnode) int {
+	v.mu.Lock()
+	defer v.mu.Unlock()
+	if len(v.badBytes) == 0 {
+		return -1
+	}
+	end := off + int64(n)
+	if read && end > int64(len(node.data)) {
+		end = int64(len(node.data))
+	}
+	best := -1
+	for _, b := range v.badBytes {
+		if int64(b) >= off && int64(b) < end && (best < 0 || b < best) {
+			best = b
+		}
+	}
+	return best
 }
 
 func (v *vfs) fail(key string) error {
